@@ -303,7 +303,13 @@ void h_move_thdir_to_final(void)
 #define FREE_CPUS_PRE (rthread.cpus == NULL || (__CPROVER_is_fresh(rthread.cpus, RCPU_SZ) && \
 	(rthread.cpus->next == NULL || (__CPROVER_is_fresh(rthread.cpus->next, RCPU_SZ) && rthread.cpus->next->next == NULL))))
 #endif
-int w_ncpus, w_rank_set, w_mtf;
+/* used by the empty-list group only: a false precondition is asserted at the call site,
+ * i.e. set_thread_cpus is proved unreachable there (so its loop needs no bound) */
+void cr11_set_thread_cpus_unreachable(JSON_Object *meta)
+__CPROVER_requires(0)
+__CPROVER_assigns()
+__CPROVER_ensures(1);
+int w_rank_set, w_mtf;
 void c11_ovni_thread_free(void)
 __CPROVER_requires(!rthread.ready || FREE_CPUS_PRE)
 __CPROVER_requires(!rthread.ready || rthread.evbuf == NULL || __CPROVER_is_fresh(rthread.evbuf, g_cap))
